@@ -1,6 +1,8 @@
 #!/bin/bash
 # Run once after a fresh restore, offline. Builds the tools, warms the Go build
-# cache for the three build flavours and runs the scheduler calibration.
+# cache for the three build flavours, runs the scheduler calibration and checks
+# the AST rewriter by running zap's own suite against the instrumented
+# (pass-through) build.
 set -e
 VERIF=$(cd "$(dirname "$0")" && pwd)
 export GOFLAGS=-mod=mod GOPROXY=off GOSUMDB=off GOTOOLCHAIN=local GOWORK=off
@@ -10,4 +12,20 @@ go build -o "$VERIF/bin/instrument" ./cmd/instrument
 cd "$VERIF"
 ./check CALIB
 ./check CALIBRACE
+# Equivalence check of the instrumenter: outside a scheduler run the shims are
+# pass-through, so zap's own tests must pass on the rewritten sources. A failure
+# here is reported but does not stop setup (zap's suite has a few wall-clock
+# tests that can fail on a loaded machine); it is retried once.
+W="$VERIF/.work/passthru"; rm -rf "$W"; mkdir -p "$W"
+if "$VERIF/bin/instrument" -repo /repo -shim "$VERIF/shim" -out "$W" -mode inst >"$W/log" 2>&1; then
+  pt=FAIL
+  for try in 1 2; do
+    if (cd /repo && go test -overlay "$W/overlay.json" -vet=off -count=1 ./... >"$W/test.log" 2>&1); then pt=pass; break; fi
+  done
+  echo "instrumented pass-through run of zap's suite: $pt"
+  [ $pt = pass ] || grep -E "^(--- FAIL|FAIL|panic)" "$W/test.log" | head -10
+else
+  echo "instrumented pass-through run: instrumenter failed"; cat "$W/log"
+fi
+rm -rf "$W"
 echo "setup ok"
